@@ -428,6 +428,130 @@ func checkC10Scanner(w *World, r *Report) {
 	})
 	ru3.Check("parameter name length", w.Pos(loop.Pos()), "compared with maxParamKeyBytes in the {param} and the *{param} state", nKey >= 2, fmt.Sprintf("%d comparison(s)", nKey))
 
+	// ---- C10.5: the recorded start of a wildcard name is the position of its '{' (the length limit counts from there)
+	ru5 := r.Rule("C10.5", "the name of a wildcard starts at its '{': wherever the validator records the start position used for the name-length limit, the byte at the cursor is known to be '{' on that path (the {param} branch tests it, the *{param} branch has rejected anything else and stepped over the '*')", 2)
+	nStart := 0
+	for _, b := range af.g.Blocks {
+		if !b.Live {
+			continue
+		}
+		for _, s0 := range in[b] {
+			s := s0.clone()
+			brace := map[int]bool{}
+			// facts on the way to this block: url[i+k] == '{' (true) / url[i+k] != '{' (false)
+			for _, f := range af.factsAt(b) {
+				// the failed guard `i+k < len(url) && url[i+k] != '{'`: either the input ends or url[i+k] is '{'
+				if land, ok := f.e.(*ast.BinaryExpr); ok && land.Op == token.LAND && !f.val {
+					if x, y, ok := isCmp(land.X, token.LSS); ok && y == "len("+sv+")" && strings.HasPrefix(x, iv+"+") {
+						if ne, ok := land.Y.(*ast.BinaryExpr); ok && ne.Op == token.NEQ && (exprStr(ne.Y) == "'{'" || exprStr(ne.Y) == "bracketDelim") && exprStr(ne.X) == sv+"["+x+"]" {
+							var k int
+							if _, err := fmt.Sscan(x[len(iv)+1:], &k); err == nil {
+								brace[k] = true
+							}
+						}
+					}
+				}
+				for _, ff := range splitFact(f) {
+					be, ok := ff.e.(*ast.BinaryExpr)
+					if !ok || (exprStr(be.Y) != "'{'" && exprStr(be.Y) != "bracketDelim") {
+						continue
+					}
+					ie, ok := be.X.(*ast.IndexExpr)
+					if !ok || exprStr(ie.X) != sv {
+						continue
+					}
+					k, okk := 0, false
+					idx := exprStr(ie.Index)
+					if idx == iv {
+						k, okk = 0, true
+					} else if strings.HasPrefix(idx, iv+"+") {
+						if _, err := fmt.Sscan(idx[len(iv)+1:], &k); err == nil {
+							okk = true
+						}
+					}
+					if okk && ((be.Op == token.EQL && ff.val) || (be.Op == token.NEQ && !ff.val)) {
+						brace[k] = true // relative to the cursor at the loop head
+					}
+				}
+			}
+			for _, n := range b.Nodes {
+				if as, ok := n.(*ast.AssignStmt); ok && len(as.Lhs) == 1 && exprStr(as.Lhs[0]) == "startParam" && exprStr(as.Rhs[0]) == iv && inBody(n) {
+					nStart++
+					okk := !s.top && brace[s.offset]
+					// the *{ branch: `i+1 < len && url[i+1] != '{'` returned an error, so url[i+1] == '{' holds only when i+1 < len;
+					// at the end of input the pattern is rejected later (unclosed), which is fine.
+					ru5.Check("startParam = "+iv, w.Pos(as.Pos()), "the cursor is on the '{' of the wildcard", okk, fmt.Sprintf("cursor offset %+d, '{' known at offsets %v", s.offset, sortedInts(brace)))
+				}
+				s = transfer(n, s, false)
+			}
+		}
+	}
+	if nStart < 2 {
+		r.Unrecognised("C10.5: only %d assignments of startParam found", nStart)
+	}
+
+	// ---- C10.6: the "name is non-empty" flag is cleared for every wildcard
+	ru6 := r.Rule("C10.6", "the non-empty-name flag is reset for every wildcard: either every return to the default state (at '}') clears inParam, or every entry into a wildcard state does; otherwise an earlier name makes `{}` / `*{}` pass", 2)
+	var closes, opens []ast.Node
+	closeOK, openOK := 0, 0
+	type at struct {
+		b *cfg.Block
+		i int
+	}
+	var resets []at
+	for _, b := range af.g.Blocks {
+		if !b.Live {
+			continue
+		}
+		for i, n := range b.Nodes {
+			if as, ok := n.(*ast.AssignStmt); ok && len(as.Lhs) == 1 && exprStr(as.Lhs[0]) == "inParam" && exprStr(as.Rhs[0]) == "false" && inBody(n) {
+				resets = append(resets, at{b, i})
+			}
+		}
+	}
+	dominated := func(b *cfg.Block, i int) bool {
+		for _, rs := range resets {
+			if (rs.b == b && rs.i < i) || (rs.b != b && af.dominates(rs.b, b)) {
+				return true
+			}
+		}
+		return false
+	}
+	for _, b := range af.g.Blocks {
+		if !b.Live {
+			continue
+		}
+		for i, n := range b.Nodes {
+			as, ok := n.(*ast.AssignStmt)
+			if !ok || len(as.Lhs) != 1 || exprStr(as.Lhs[0]) != "state" || !inBody(n) {
+				continue
+			}
+			switch exprStr(as.Rhs[0]) {
+			case "stateDefault":
+				closes = append(closes, n)
+				if dominated(b, i) {
+					closeOK++
+				}
+			case "stateParam", "stateCatchAll":
+				opens = append(opens, n)
+				if dominated(b, i) {
+					openOK++
+				}
+			}
+		}
+	}
+	okFlag := (len(closes) > 0 && closeOK == len(closes)) || (len(opens) > 0 && openOK == len(opens))
+	ru6.Check("inParam reset", w.Pos(loop.Pos()), "cleared at every '}' or at every wildcard opening", okFlag, fmt.Sprintf("%d/%d closings and %d/%d openings clear it", closeOK, len(closes), openOK, len(opens)))
+	// and the emptiness test exists in both states
+	nEmpty := 0
+	ast.Inspect(loop.Body, func(n ast.Node) bool {
+		if ifs, ok := n.(*ast.IfStmt); ok && exprStr(ifs.Cond) == "!inParam" {
+			nEmpty++
+		}
+		return true
+	})
+	ru6.Check("empty name test", w.Pos(loop.Pos()), "`!inParam` is tested when a '}' is met in both wildcard states", nEmpty >= 2, fmt.Sprintf("%d test(s)", nEmpty))
+
 	// ---- C10.4: success only in the default state
 	ru4 := r.Rule("C10.4", "the success return is reachable only when the scanner is back in its default state: it is dominated by the failure of `state == stateParam` and `state == stateCatchAll` (an unclosed '{' or '*{' is an error)", 1)
 	n := 0
@@ -461,4 +585,13 @@ func checkC10Scanner(w *World, r *Report) {
 		ru4.Fail("success return of parseRoute", w.Pos(af.decl.Pos()), "exactly one success return", fmt.Sprintf("%d", n))
 	}
 	_ = ssa.Value(nil)
+}
+
+func sortedInts(m map[int]bool) []int {
+	var out []int
+	for k := range m {
+		out = append(out, k)
+	}
+	sort.Ints(out)
+	return out
 }
